@@ -17,9 +17,19 @@ from .rng import Rng
 ROOT = os.path.dirname(os.path.dirname(os.path.abspath(__file__)))
 REPO = os.environ.get("VERIF_REPO", "/repo")
 TOOLKIT = os.path.join(REPO, "src/target/trx_toolkit")
-COQ = os.path.join(ROOT, "coq")
-TH = os.path.join(COQ, "theories")
 WORK = os.path.join(ROOT, "work")
+COQ = os.path.join(ROOT, "coq")
+if os.path.realpath(REPO) != "/repo":
+    # a scratch copy of the repository is being checked (mutation experiments): use a private copy of the Coq tree and
+    # private build outputs so that Gen files / .vo files of the real tree are never disturbed
+    _tag = hashlib.sha1(os.path.realpath(REPO).encode()).hexdigest()[:10]
+    WORK = os.path.join(ROOT, "work", "alt-" + _tag)
+    COQ = os.path.join(WORK, "coq")
+    os.makedirs(COQ, exist_ok=True)
+    subprocess.run(["rsync", "-a", "--delete", "--exclude", "*.vo", "--exclude", "*.vok", "--exclude", "*.vos", "--exclude", "*.glob", "--exclude", ".*.aux",
+                    "--exclude", "*.sig", "--exclude", "Gen/", os.path.join(ROOT, "coq", "theories") + "/", os.path.join(COQ, "theories") + "/"], check=False)
+    os.makedirs(os.path.join(COQ, "theories", "Gen"), exist_ok=True)
+TH = os.path.join(COQ, "theories")
 OUT = os.path.join(ROOT, "out")
 EVID = os.path.join(ROOT, "evidence")
 PYTHON = "/venv/bin/python"
@@ -86,19 +96,16 @@ REQ = re.compile(r"^\s*(?:From\s+OBB\s+)?Require\s+(?:Import\s+|Export\s+)?([^.]
 
 
 def coq_deps(vfile):
-    """logical OBB.* dependencies of a .v file -> list of .v paths"""
+    """logical OBB.* dependencies of a .v file -> list of .v paths (a Require sentence may span several lines)"""
     deps = []
-    with open(vfile) as f:
-        for line in f:
-            line = line.strip()
-            if not line.startswith("From OBB Require"):
-                continue
-            line = line.rstrip(".")
-            names = line.split()[3:]
-            if names and names[0] in ("Import", "Export"):
-                names = names[1:]
-            for n in names:
-                deps.append(os.path.join(TH, *n.split(".")) + ".v")
+    try:
+        with open(vfile) as f:
+            txt = f.read()
+    except OSError:
+        return deps
+    for m in re.finditer(r"From\s+OBB\s+Require\s+(?:Import\s+|Export\s+)?([^.]*(?:\.[A-Za-z_][A-Za-z0-9_']*[^.]*)*)\.(?:\s|$)", txt):
+        for n in m.group(1).split():
+            deps.append(os.path.join(TH, *n.split(".")) + ".v")
     return deps
 
 
@@ -115,28 +122,52 @@ def coq_cone(vfile, seen=None, order=None):
     return order
 
 
+_SIG = {}
+
+
+def coq_sig(v):
+    """signature of a theory file: hash of its source text and of the signatures of everything it requires"""
+    if v in _SIG:
+        return _SIG[v]
+    h = hashlib.sha256()
+    try:
+        with open(v, "rb") as f:
+            h.update(f.read())
+    except OSError:
+        h.update(b"<missing>")
+    for d in coq_deps(v):
+        h.update(coq_sig(d).encode())
+    _SIG[v] = h.hexdigest()
+    return _SIG[v]
+
+
 def _stale(v):
     vo = v[:-2] + ".vo"
     if not os.path.exists(vo):
         return True
-    t = os.path.getmtime(vo)
-    if os.path.getmtime(v) > t:
+    try:
+        with open(vo + ".sig") as f:
+            return f.read().strip() != coq_sig(v)
+    except OSError:
         return True
-    for d in coq_deps(v):
-        dvo = d[:-2] + ".vo"
-        if not os.path.exists(dvo) or os.path.getmtime(dvo) > t:
-            return True
-    return False
 
 
 def coqc(v, timeout=900, cwd=None):
     t0 = time.time()
+    sig = coq_sig(v)
     rc, out = sh(["coqc", "-q", "-Q", TH, "OBB", v], timeout=timeout, cwd=cwd or COQ)
+    if rc == 0 and cwd is None:
+        try:
+            with open(v[:-2] + ".vo.sig", "w") as f:
+                f.write(sig)
+        except OSError:
+            pass
     return rc, out, time.time() - t0
 
 
 def coq_build(targets, force=(), timeout=900, jobs=NPROC):
     """build the cone of the target .v files. Returns (ok, logs{file:(rc,out,secs)}, first_failure)."""
+    _SIG.clear()
     order, seen = [], set()
     for t in targets:
         coq_cone(t, seen, order)
@@ -231,15 +262,18 @@ def build_model(group, timeout=600):
     d = os.path.join(WORK, "ocaml", group)
     os.makedirs(d, exist_ok=True)
     binp = model_binary(group)
-    newest = max(os.path.getmtime(x[:-2] + ".vo") for x in coq_cone(ext)[:-1])
-    srcs = [ext, os.path.join(ROOT, "ocaml", "driver.ml")]
-    newest = max([newest] + [os.path.getmtime(s) for s in srcs])
-    if os.path.exists(binp) and os.path.getmtime(binp) >= newest:
-        return True, "up to date"
+    with open(os.path.join(ROOT, "ocaml", "driver.ml"), "rb") as f:
+        msig = coq_sig(ext) + hashlib.sha256(f.read()).hexdigest()
+    try:
+        with open(binp + ".sig") as f:
+            if os.path.exists(binp) and f.read().strip() == msig:
+                return True, "up to date"
+    except OSError:
+        pass
     for f in os.listdir(d):
         os.unlink(os.path.join(d, f))
     rc, out, _ = coqc(ext, timeout, cwd=d)
-    for junk in ("Ext%s.vo", "Ext%s.glob", "Ext%s.vok", "Ext%s.vos", ".Ext%s.aux"):
+    for junk in ("Ext%s.vo", "Ext%s.glob", "Ext%s.vok", "Ext%s.vos", ".Ext%s.aux", "Ext%s.vo.sig"):
         p = os.path.join(TH, "Extract", junk % group)
         if os.path.exists(p):
             os.unlink(p)
@@ -255,6 +289,8 @@ def build_model(group, timeout=600):
                  "ocamlfind ocamlopt -w -a -o model model.mli model.ml table.ml driver.ml", cwd=d, timeout=timeout)
     if rc != 0 or not os.path.exists(binp):
         return False, "ocaml build failed:\n" + out[-3000:]
+    with open(binp + ".sig", "w") as f:
+        f.write(msig)
     return True, "built %d ops" % len(ops)
 
 
